@@ -30,6 +30,9 @@ type htask struct {
 	Globs []string `json:"globs,omitempty"`
 	Deps  []string `json:"deps,omitempty"`
 	NCmd  int      `json:"ncmd"`
+	// Copies are performed by the task's first command (cp src dst, relative to the project),
+	// after its fail test and before its ok marker: a generated file another task may depend on.
+	Copies [][2]string `json:"copies,omitempty"`
 }
 
 type hshape struct {
@@ -57,6 +60,7 @@ var histShapes = []hshape{
 	{Name: "literal-plus-glob", Tasks: []htask{{Name: "A", Lits: []string{"a.txt"}, Globs: []string{"sub/*.txt"}, NCmd: 1}, {Name: "B", Globs: []string{"*.txt"}, NCmd: 1}}, Files: []string{"a.txt", "sub/s.txt"}},
 	{Name: "same-glob-different-literals", Tasks: []htask{{Name: "A", Globs: []string{"*.txt"}, NCmd: 1}, {Name: "B", Lits: []string{"c.cfg"}, Globs: []string{"*.txt"}, NCmd: 1}}, Files: []string{"a.txt", "c.cfg"}},
 	{Name: "file-named-twice", Tasks: []htask{{Name: "A", Lits: []string{"a.txt"}, Globs: []string{"*.txt"}, NCmd: 1}, {Name: "B", Globs: []string{"*.txt", "**/*.txt"}, NCmd: 1}}, Files: []string{"a.txt", "b.txt"}},
+	{Name: "generated-input", Tasks: []htask{{Name: "A", Lits: []string{"a.txt"}, NCmd: 1, Copies: [][2]string{{"a.txt", "g.txt"}}}, {Name: "B", Lits: []string{"g.txt"}, Deps: []string{"A"}, NCmd: 1}}, Files: []string{"a.txt", "g.txt"}},
 	{Name: "chain-of-three", Tasks: []htask{{Name: "A", Lits: []string{"a.txt"}, NCmd: 1}, {Name: "B", Lits: []string{"b.txt"}, Deps: []string{"A"}, NCmd: 1}, {Name: "C", Deps: []string{"B"}, NCmd: 1}}, Files: []string{"a.txt", "b.txt"}},
 }
 
@@ -98,8 +102,14 @@ func (sb *sandbox) spokfileText(s hshape) string {
 		}
 		fmt.Fprintf(&b, "task %s(%s) {\n", t.Name, strings.Join(deps, ", "))
 		for i := 0; i < t.NCmd; i++ {
-			fmt.Fprintf(&b, "    printf '%%s\\n' %s.%d.start >> %s && test ! -e %s/kill.%s.%d || kill -9 $$ && test ! -e %s/fail.%s.%d && printf '%%s\\n' %s.%d.ok >> %s\n",
-				t.Name, i, sb.Log, sb.Flags, t.Name, i, sb.Flags, t.Name, i, t.Name, i, sb.Log)
+			work := ""
+			if i == 0 {
+				for _, cp := range t.Copies {
+					work += fmt.Sprintf(" && cp %s %s", filepath.Join(sb.Proj, cp[0]), filepath.Join(sb.Proj, cp[1]))
+				}
+			}
+			fmt.Fprintf(&b, "    printf '%%s\\n' %s.%d.start >> %s && test ! -e %s/kill.%s.%d || kill -9 $$ && test ! -e %s/fail.%s.%d%s && printf '%%s\\n' %s.%d.ok >> %s\n",
+				t.Name, i, sb.Log, sb.Flags, t.Name, i, sb.Flags, t.Name, i, work, t.Name, i, sb.Log)
 		}
 		b.WriteString("}\n\n")
 	}
@@ -390,15 +400,17 @@ func (o hobs) succeeded(t *htask) bool {
 	return true
 }
 
-func (sb *sandbox) setFail(fail string, on bool) {
-	if fail == "" {
-		return
-	}
-	p := filepath.Join(sb.Flags, "fail."+fail)
-	if on {
-		_ = os.WriteFile(p, nil, 0o644)
-	} else {
-		_ = os.Remove(p)
+func (sb *sandbox) setFail(fails string, on bool) {
+	for _, fail := range strings.Split(fails, ",") {
+		if fail == "" {
+			continue
+		}
+		p := filepath.Join(sb.Flags, "fail."+fail)
+		if on {
+			_ = os.WriteFile(p, nil, 0o644)
+		} else {
+			_ = os.Remove(p)
+		}
 	}
 }
 
@@ -523,12 +535,30 @@ func judgeRun(s hshape, pre hstate, o hobs, st *hstate, strictC02 bool) hverdict
 	}
 	closure := s.closure(o.Op.Tasks)
 	errored := o.Err != "" && !o.HaveRep
+	// the files as each task finds them when its turn comes: a task may generate a file
+	// that a task depending on it names as input
+	cur := map[string]string{}
+	for k, val := range pre.Files {
+		cur[k] = val
+	}
+	logged := map[string]bool{}
+	for _, l := range o.Log {
+		logged[l] = true
+	}
 	for _, name := range closure {
 		t := s.task(name)
 		if t == nil {
 			continue
 		}
-		snap := snapshot(t, pre.Files)
+		snap := snapshot(t, cur)
+		missing := missingLiteral(t, cur)
+		if logged[name+".0.ok"] {
+			for _, cp := range t.Copies {
+				if c, ok := cur[cp[0]]; ok {
+					cur[cp[1]] = c
+				}
+			}
+		}
 		last := pre.Model[name]
 		exec := o.executed(name)
 		rep, haveRep := o.Reported[name]
@@ -576,7 +606,7 @@ func judgeRun(s hshape, pre hstate, o hobs, st *hstate, strictC02 bool) hverdict
 			// those inputs (only a forced run can do that); spok then no longer treats it as up to date
 			corner := pre.LastFail[name] != ""
 			switch {
-			case hasFiles && last == snap && !corner && !missingLiteral(t, pre.Files):
+			case hasFiles && last == snap && !corner && !missing:
 				v.DemSkips++
 				if len(closure) > 1 {
 					v.MultiSkip = true
@@ -586,7 +616,7 @@ func judgeRun(s hshape, pre hstate, o hobs, st *hstate, strictC02 bool) hverdict
 				} else if haveRep && !rep {
 					bad("C02", "unchanged-task-reported-skipped", "task %s ran nothing but is not reported skipped", name)
 				}
-			case !hasFiles && !missingLiteral(t, pre.Files) && len(t.Lits) == 0:
+			case !hasFiles && !missing && len(t.Lits) == 0:
 				if !exec && t.NCmd > 0 {
 					bad("C02", "no-file-task-always-runs", "task %s has no file dependency that matches a file but was not run", name)
 				}
